@@ -61,23 +61,27 @@ def is_macro(isa, ri):
     return 'macro' in isa.rules[ri]
 
 
-def add_extras(rng, isa):
-    """base rules the macros like to use: an absolute jump, a position-dependent relative jump, a no-operand filler"""
+def add_extras(rng, isa, unit=8):
+    """base rules the macros like to use: an absolute jump, a position-dependent relative jump, a no-operand filler,
+    a rule over a sub-rule operand that contains an expression; every size a multiple of `unit` bits"""
+    def add(m, ops, prod, size):
+        if size % unit:
+            prod = '0b' + '0' * (unit - size % unit) + ' @ ' + prod
+        isa.rules.append(dict(m=m, ops=ops, prod=prod, whole_bytes=True))
     if rng.chance(0.8):
-        isa.rules.append(dict(m='jp', ops=[('expr', 'x', rng.choice(['u8', 'u16', None]), ('', ''))], prod=None))
-        r = isa.rules[-1]
-        r['prod'] = '0xc3 @ x' if r['ops'][0][2] else '0xc3 @ x`16'
+        typ = rng.choice(['u8', 'u16', None])
+        add('jp', [('expr', 'x', typ, ('', ''))], '0xc3 @ x' if typ else '0xc3 @ x`16', 16 if typ == 'u8' else 24)
     if rng.chance(0.6):
-        isa.rules.append(dict(m='jr', ops=[('expr', 'x', None, ('', ''))], prod='0x7e @ (x - $)`8'))
+        add('jr', [('expr', 'x', None, ('', ''))], '0x7e @ (x - $)`8', 16)
     if rng.chance(0.5):
-        isa.rules.append(dict(m='fill', ops=[], prod='0x%02x' % rng.below(256)))
+        add('fill', [], '0x%02x' % rng.below(256), 8)
     if rng.chance(0.7):
         # a sub-rule operand that CONTAINS an expression (wrapped forms): what is written inside it in a block body must
         # see the block's labels and by-value locals exactly like a plain expression operand
         isa.subs.append((OPND, [('[{a: u8}]', '0x01 @ a'), ('#{v: u8}', '0x02 @ v'), ('({a: u8})+', '0x03 @ a')]))
-        isa.rules.append(dict(m='jx', ops=[('sub', 't', OPND)], prod='0x%02x @ t' % rng.below(256), whole_bytes=True))
+        add('jx', [('sub', 't', OPND)], '0x%02x @ t' % rng.below(256), 24)
         if rng.chance(0.4):
-            isa.rules.append(dict(m='mvx', ops=[('sub', 't', OPND), ('expr', 'x', 'u8', ('', ''))], prod='0x%02x @ t @ x' % rng.below(256), whole_bytes=True))
+            add('mvx', [('sub', 't', OPND), ('expr', 'x', 'u8', ('', ''))], '0x%02x @ t @ x' % rng.below(256), 32)
 
 
 def gen_macro(rng, prog, idx, callable_rules, global_syms):
@@ -199,11 +203,11 @@ def gen_macro(rng, prog, idx, callable_rules, global_syms):
     return mac
 
 
-def extend_with_macros(rng, prog, nmac=None):
+def extend_with_macros(rng, prog, nmac=None, unit=8):
     """appends extra base rules and macro rules to prog.isa; returns (index of first extra rule, index of first macro)"""
     isa = prog.isa
     nbase0 = len(isa.rules)
-    add_extras(rng, isa)
+    add_extras(rng, isa, unit)
     nbase = len(isa.rules)
     nmac = nmac or rng.range(1, 4)
     callable_rules = list(range(nbase))
@@ -334,6 +338,7 @@ def inline_program(prog, base_isa):
     q = asm_gen.Prog(base_isa)
     fresh = Fresh()
     q.notes = []
+    q.src_index = []                                  # per item of q: index of the item of prog it comes from
     for i, it in enumerate(prog.items):
         if it[0] == 'instr' and is_macro(prog.isa, it[1]):
             notes = {}
@@ -343,6 +348,7 @@ def inline_program(prog, base_isa):
             q.notes.append((i, notes))
         else:
             q.items.append(it)
+        q.src_index += [i] * (len(q.items) - len(q.src_index))
     q.names = [it[1] for it in q.items if it[0] in ('label', 'const')]
     return q
 
@@ -421,7 +427,7 @@ def prod_size(r):
     return total
 
 
-def byte_align(prog):
+def byte_align(prog, unit=8):
     """make every base instruction and data item a whole number of bytes (pad the production with leading zero bits),
     so that every position of the program is an address: misaligned block labels are a stream of their own"""
     for r in prog.isa.rules:
@@ -430,13 +436,17 @@ def byte_align(prog):
         n = prod_size(r)
         if n is None:
             return False                    # a production shape this module does not know: the caller regenerates
-        if n % 8:
-            pad = '0b' + '0' * (8 - n % 8)
+        if n == 8 and '?' in r['prod'] and unit != 8:
+            return False
+        if n % unit:
+            pad = '0b' + '0' * (unit - n % unit)
             m = re.fullmatch(r'\{ (assert\([^)]*\)), (.*) \}', r['prod'].strip())
             r['prod'] = ('{ %s, %s @ %s }' % (m.group(1), pad, m.group(2))) if m else (pad + ' @ ' + r['prod'])
     for i, it in enumerate(prog.items):
-        if it[0] == 'data' and it[1] is not None and it[1] % 8:
-            prog.items[i] = ('data', (it[1] + 7) // 8 * 8, it[2])
+        if it[0] == 'data' and it[1] is not None and it[1] % unit:
+            prog.items[i] = ('data', (it[1] + unit - 1) // unit * unit, it[2])
+        if it[0] == 'data' and it[1] is None and unit != 8:
+            prog.items[i] = ('data', 2 * unit, it[2])       # unsized data: give it a width that is a whole number of units
     return True
 
 
@@ -470,13 +480,13 @@ def supported(prog):
     return all(it[0] in ('label', 'const', 'instr', 'data', 'res', 'align', 'addr') for it in prog.items)
 
 
-def gen_base(rng, size_static):
+def gen_base(rng, size_static, unit=8):
     """a byte-aligned asm_gen program without self-referential constants; asm_gen grows: whatever this module cannot
     handle (unknown operand kinds, production shapes whose size it cannot read) is regenerated, never an exception"""
     for _ in range(200):
         try:
             prog = asm_gen.gen_prog(rng, size_static=size_static, collide=False, boundary=False, tame=True)
-            if not has_const_cycle(prog) and supported(prog) and byte_align(prog):
+            if not has_const_cycle(prog) and supported(prog) and byte_align(prog, unit):
                 return prog
         except (KeyError, ValueError, IndexError, TypeError, AttributeError):
             continue
@@ -489,9 +499,12 @@ def gen_base(rng, size_static):
     return prog
 
 
-def gen_macro_case(rng, size_static=True):
-    prog = gen_base(rng, size_static)
-    _, first_macro = extend_with_macros(rng, prog)
+def gen_macro_case(rng, size_static=True, keep_addr=True, unit=8):
+    """unit: every instruction and data item is a whole number of `unit` bits (the address unit of the bank it goes to)"""
+    prog = gen_base(rng, size_static, unit)
+    if not keep_addr:
+        prog.items = [it for it in prog.items if it[0] != 'addr']
+    _, first_macro = extend_with_macros(rng, prog, unit=unit)
     add_macro_calls(rng, prog, first_macro)
     # a few direct uses of the expression-carrying sub-rule operand outside macros
     for ri, r in enumerate(prog.isa.rules[:first_macro]):
@@ -871,3 +884,39 @@ def gen_budget_case(rng):
         lines += ['nop'] * rng.range(0, 2) + ['blk'] if rng.chance(0.3) else ['nop']
     lines.append('r = ' + dep)
     return '#ruledef\n{\n    %s\n}\n%s\n' % ('\n    '.join(rules), '\n'.join(lines))
+
+
+# ------------------------------------------------------------------------------------------------ bank layouts
+def gen_bank_layout(rng):
+    """a header bank at the start of the output file, a code bank behind it (non-zero #outp, address base, 8- or 16-bit
+    addresses, optionally filled) and optionally a third bank behind that; -> (bankdef text, header text, names of the
+    banks the program is spread over)"""
+    H = rng.choice([2, 4, 8, 16])
+    bits = 16 if rng.chance(0.25) else 8
+    fill = rng.chance(0.3)
+    size = 0x40 if fill else 0x800
+    addr = rng.choice([0, 0, 0x10, 0x20, 0x40, 0x100])
+    defs = ['#bankdef hdr\n{\n    #addr 0x0\n    #size 0x%x\n    #outp 0\n    #fill\n}\n' % H,
+            '#bankdef code\n{\n    #bits %d\n    #addr 0x%x\n    #size 0x%x\n    #outp 8 * 0x%x\n%s}\n' % (bits, addr, size, H, '    #fill\n' if fill else '')]
+    banks = ['code']
+    unit = bits
+    if rng.chance(0.5):
+        bits2 = 16 if rng.chance(0.2) else 8
+        unit = max(bits, bits2)
+        off = H + size * bits // 8
+        defs.append('#bankdef tail\n{\n    #bits %d\n    #addr 0x%x\n    #size 0x400\n    #outp 8 * 0x%x\n}\n' % (bits2, rng.choice([0, 0x30, 0x80]), off))
+        banks.append('tail')
+    header = '#bank hdr\n#d8 %s\n' % ', '.join('0x%02x' % rng.below(256) for _ in range(rng.range(1, H)))
+    return ''.join(defs), header, banks, dict(bits=bits, fill=fill, addr=addr, header=H, unit=unit)
+
+
+def banked_text(isa_text, bankdefs, header, banks, lines, src_index, split):
+    """the program's lines spread over the banks: items that come from source items before `split` go to the first bank"""
+    out = [isa_text, bankdefs, header, '#bank %s\n' % banks[0]]
+    switched = len(banks) < 2
+    for line, si in zip(lines, src_index):
+        if not switched and si >= split:
+            out.append('#bank %s\n' % banks[1])
+            switched = True
+        out.append(line + '\n')
+    return ''.join(out)
